@@ -59,6 +59,20 @@ PROPS = {
         "assumptions": ["randomness of the seat manager (shuffled seats, first big-blind seat) enters the model as a recorded choice, checked for legality"],
         "extra_obligations": [],
     },
+    "C09": {
+        "layers": ["ogm"], "classes": ["C09."],
+        "modes": {"quick": [{"mode": "ogm", "args": ["-n", 400, "-stress", 300]}],
+                  "thorough": [{"mode": "ogm", "args": ["-n", 6000, "-stress", 20000, "-timeoutevery", 4], "timeout": 3000}],
+                  "search": [{"mode": "ogm", "args": ["-n", 3000, "-stress", 3000]}]},
+        "rule": ("random call sequences on the real OpenGameManager in the quiescent regime (a 2.5 ms pause after every call lets the ReadyGroup's goroutines drain): "
+                 "Setup with 0..7 participants (occasionally two ids on one index), Ready of awaited / unknown / repeated ids, waiting for the 1 s timeout, rebuilding "
+                 "from GetState(); after every call gameCount, participants and the callbacks fired are compared with the Lean OGM model (drained); plus a concurrent stress "
+                 "regime (Ready racing Setup) that only feeds the monitors; non-trivial = at least one Setup; distinct = distinct trace texts"),
+        "trusted_base": TB_COMMON + ["syncsaga.ReadyGroup is modelled (queue / consume / complete steps), not verified; its memory-level races are outside the model"],
+        "assumptions": ["theorems assume Setup is called when the group is quiescent and participant indexes are distinct (discharged for the table engine's own call sites by construction; witnesses show both are necessary)",
+                        "wall-clock timeout enters as an event"],
+        "extra_obligations": [],
+    },
     "C17": {
         "layers": ["mg"], "classes": ["C17."],
         "modes": {"quick": [], "thorough": [], "search": []},
